@@ -4,6 +4,7 @@ package main
 // outcome class, abstracted return value and (optionally) the key-space audit.
 
 import (
+	"math"
 	"bytes"
 	"encoding/json"
 	"errors"
@@ -332,6 +333,20 @@ func (x *Exec) gammaCrit(c []interface{}) query.Criteria {
 	panic(fmt.Sprintf("bad criteria %v", c))
 }
 
+// TLC integers have 32 bits: window arguments above hugeBase stand for the extreme Go ints.  The
+// model reads them as the (still larger than any collection) token values, which window a result
+// exactly as the extreme values do.
+const hugeBase = 1000000000
+
+var hugeArgs = []int{math.MaxInt, math.MaxInt - 2, 1 << 62, math.MaxInt/2 + 1, math.MaxInt32 + 1, math.MaxInt - 50}
+
+func windowArg(n int) int {
+	if n > hugeBase && n-hugeBase <= len(hugeArgs) {
+		return hugeArgs[n-hugeBase-1]
+	}
+	return n
+}
+
 func (x *Exec) gammaQuery(e E) *query.Query {
 	q := query.NewQuery(unescName(e["c"].(string)))
 	for _, b := range toList(e["q"]) {
@@ -342,9 +357,9 @@ func (x *Exec) gammaQuery(e E) *query.Query {
 		case "match":
 			q = q.MatchFunc(namedFns[bl[1].(string)](str(bl[2])))
 		case "skip":
-			q = q.Skip(toInt(bl[1]))
+			q = q.Skip(windowArg(toInt(bl[1])))
 		case "limit":
-			q = q.Limit(toInt(bl[1]))
+			q = q.Limit(windowArg(toInt(bl[1])))
 		case "sort":
 			var opts []query.SortOption
 			for _, o := range toList(bl[1]) {
